@@ -169,13 +169,37 @@ func (w *world) project(p int) []string {
 		}
 		set("usc", us)
 	}
+	// factory denoms are attributed to their CURRENT admin (the admin role can be handed over with MsgChangeAdmin; the
+	// creator baked into factory/<creator>/<sub> is then no longer the owner), and so are both bridge mapping records
+	// (denom -> erc20 and erc20 -> denom) of such a denom
 	var dens, erc []string
-	for _, d := range a.TokenFactoryKeeper.GetDenomsFromCreator(ctx, acc.String()) {
-		am, _ := a.TokenFactoryKeeper.GetAuthorityMetadata(ctx, d)
-		md, _ := a.BankKeeper.GetDenomMetaData(ctx, d)
-		dens = append(dens, fmt.Sprintf("%s/%s/%s/%s", d, am.Admin, h(md.String()), a.BankKeeper.GetSupply(ctx, d).Amount))
-		if e, err := a.SkywayKeeper.GetERC20OfDenom(ctx, chain, d); err == nil && e != nil {
-			erc = append(erc, d+"="+e.GetAddress().Hex())
+	mine := map[string]bool{}
+	for _, cr := range []sdk.AccAddress{w.addr(pA), w.addr(pB), w.v2().Addr, w.gov} {
+		for _, d := range a.TokenFactoryKeeper.GetDenomsFromCreator(ctx, cr.String()) {
+			am, err := a.TokenFactoryKeeper.GetAuthorityMetadata(ctx, d)
+			if err != nil || am.Admin != acc.String() {
+				continue
+			}
+			mine[d] = true
+			md, _ := a.BankKeeper.GetDenomMetaData(ctx, d)
+			dens = append(dens, fmt.Sprintf("%s/%s/%s/%s", d, am.Admin, h(md.String()), a.BankKeeper.GetSupply(ctx, d).Amount))
+			if e, err := a.SkywayKeeper.GetERC20OfDenom(ctx, chain, d); err == nil && e != nil {
+				erc = append(erc, "d2e:"+d+"="+e.GetAddress().Hex())
+			}
+		}
+	}
+	if ms, err := a.SkywayKeeper.GetAllERC20ToDenoms(ctx); err == nil {
+		for _, m := range ms {
+			if mine[m.Denom] {
+				erc = append(erc, "e2d:"+m.ChainReferenceId+"/"+m.Erc20+"="+m.Denom)
+			}
+		}
+	}
+	if ms, err := a.SkywayKeeper.GetAllDenomToERC20s(ctx); err == nil {
+		for _, m := range ms {
+			if mine[m.Denom] {
+				erc = append(erc, "d2e-all:"+m.ChainReferenceId+"/"+m.Denom+"="+m.Erc20)
+			}
 		}
 	}
 	set("denoms", dens)
